@@ -233,7 +233,7 @@ package dataset
 
 //@ unit dataset.flushDeletes
 //@   prop C12 C01 C02
-//@   frame-assumed preserves Cell.*, compactionInstruction.*, CompactionWorker.*
+//@   preserves Cell.*, compactionInstruction.*, CompactionWorker.*
 //@   requires ops != nil && len(ops.RewriteKeys) == len(ops.RewriteValues)
 //@   ghost bufferedG [][]uint8
 //@   ghost allG [][]uint8
